@@ -29,14 +29,22 @@ def build(B, cfg):
     times = cfg['times']
     n_out = len(ems)
     n_mech = cfg.get('n_mech', 2)
-    mm = SymMechModel(B, n_params=n_mech, n_outputs=n_out)
+    sel = cfg.get('outputs')
+    mm = SymMechModel(B, n_params=n_mech,
+                      n_outputs=cfg.get('n_model_out', n_out))
+    kw = {}
+    if sel is not None:
+        # the caller names the outputs (a selection / another order of the
+        # model's outputs): error models, observations and times follow
+        # the order of that list
+        kw['outputs'] = ['out%d' % i for i in sel]
     obs = [[B.var('y%d_%d' % (o, j)) for j in range(len(times[o]))]
            for o in range(n_out)]
     models = [refs.error_model(e) for e in ems]
     if n_out == 1 and cfg.get('flat', False):
-        ll = chi.LogLikelihood(mm, models[0], obs[0], times[0])
+        ll = chi.LogLikelihood(mm, models[0], obs[0], times[0], **kw)
     else:
-        ll = chi.LogLikelihood(mm, models, obs, times)
+        ll = chi.LogLikelihood(mm, models, obs, times, **kw)
     return mm, models, obs, ll
 
 
@@ -45,6 +53,8 @@ def case_ll(B, cfg):
     times = cfg['times']
     n_out = len(ems)
     n_mech = cfg.get('n_mech', 2)
+    sel = cfg.get('outputs') or list(range(n_out))
+    oname = ['out%d' % i for i in sel]
     try:
         mm, models, obs, ll = build(B, cfg)
     except (ValueError, TypeError) as e:
@@ -62,12 +72,23 @@ def case_ll(B, cfg):
            '%r vs %d' % (ll.n_parameters(), len(theta)))
     B.fact('n_observations', list(ll.n_observations()) ==
            [len(t) for t in times], repr(ll.n_observations()))
+    if cfg.get('outputs') is not None:
+        sub = ll.get_submodels()['Mechanistic model']
+        B.fact('outputs of the likelihood = the outputs named, in that order',
+               list(sub.outputs()) == oname, repr(sub.outputs()))
+        if n_out > 1:
+            names = ll.get_parameter_names()[n_mech:]
+            want = [oname[o] for o, e in enumerate(ems)
+                    for i in range(refs.em_nparams(e))]
+            B.fact('error parameters are named after their own output',
+                   all(str(n).startswith(w + ' ')
+                       for n, w in zip(names, want)), repr(names))
     # reference: pair observation j of output o with its own time (stable
     # order by time, as documented: "output by output in time order")
     ref_terms = []
     for o, e in enumerate(ems):
         order = sorted(range(len(times[o])), key=lambda j: times[o][j])
-        yb = [mm.sym_output('out%d' % o, times[o][j], psi) for j in order]
+        yb = [mm.sym_output(oname[o], times[o][j], psi) for j in order]
         ys = [obs[o][j] for j in order]
         refs.em_assume_support(B, e, pars[o], yb, ys)
         ref_terms.append([refs.em_logpdf(B, e, pars[o], a, b)
@@ -129,7 +150,7 @@ def case_ll(B, cfg):
         tot2 = None
         for o, e in enumerate(ems):
             order = sorted(range(len(times[o])), key=lambda j: times[o][j])
-            yb2 = [mm.sym_output('out%d' % o, times[o][j], psi2)
+            yb2 = [mm.sym_output(oname[o], times[o][j], psi2)
                    for j in order]
             ys = [obs[o][j] for j in order]
             refs.em_assume_support(B, e, pars[o], yb2, ys)
@@ -164,6 +185,30 @@ def empty_layouts():
         for times in ([[0.0], [], [0.0, 1.0]], [[], [], [1.0]],
                       [[], [1.0, 2.5], [0.0]]):
             out.append(('ll', 'case_ll', dict(ems=list(e), times=times), {}))
+    return out
+
+
+def selections():
+    """outputs= names a selection of the model's outputs / the same outputs
+    in another order"""
+    out = []
+    k = 0
+    pairs = list(itertools.product(refs.ERROR_MODELS, repeat=2))
+    for n_model, sels in ((2, ([1, 0], [0, 1], [1], [0])),
+                          (3, ([2, 0], [1, 2, 0], [2, 1, 0], [0, 2, 1],
+                               [1]))):
+        for sel in sels:
+            for r in range(3):
+                e = pairs[(5 * k + r * 7) % 16]
+                ems = [e[i % 2] for i in range(len(sel))]
+                if len(sel) == 3:
+                    ems[2] = refs.ERROR_MODELS[(k + r) % 4]
+                ts = [[[0.0, 1.0], [1.0], [0.0, 2.5]][(i + r) % 3]
+                      for i in range(len(sel))]
+                out.append(('ll', 'case_ll', dict(
+                    ems=ems, times=ts, outputs=list(sel),
+                    n_model_out=n_model), {}))
+                k += 1
     return out
 
 
@@ -218,6 +263,7 @@ def jobs(tier):
             out.append(('ll', 'case_ll', dict(
                 ems=e, times=[[0.0], [0.0, 1.0], [1.0], [2.5]]), {}))
         out += empty_layouts()
+        out += selections()
     else:
         g = grids(4, 3)
         for i, t in enumerate(g):
@@ -244,6 +290,7 @@ def jobs(tier):
                     k += 1
         out.append(('ll', 'case_ll', dict(
             ems=['Gaussian'], times=[[2.5, 1.0]], unsorted=True), {}))
+        out += selections()
     return out
 
 
